@@ -130,7 +130,9 @@ class Operator(MatrixData, BasisManaged, Saveable):
             return False
  
     def is_diagonal(self):
-        dat = self._data.copy()
+        # (read through the managed property: the question is about 
+        # the operator in the current basis)
+        dat = self.data.copy()
         for i in range(self.dim):
             dat[i,i] = 0.0
         return numpy.allclose(dat, numpy.zeros(self.dim))
